@@ -22,7 +22,8 @@ RULE = ("every genome of <= 3 (thorough: 4) contigs, plus one ignored and one un
         "the data, between contigs, strictly inside a contig's run including the last contig's, at the end — for every consumer. "
         "Multi-step cases: other genome objects derived from / built next to the genome BEFORE the evaluation "
         "(with_ignored_added, more objects over the same dict, sort_names) with the added/unknown name at every position incl. "
-        "last, evaluated through the ORIGINAL and through the derived object; several genomes over the same sizes with different "
+        "last, evaluated through the ORIGINAL, through the derived object, through a SECOND derivation with another ignore "
+        "list and through a FRESH object built afterwards from the caller's same dict (which must stay unchanged); several genomes over the same sizes with different "
         "label tables (sort_names, permuted orders, filter on/off) evaluated back to back inside ONE case on the in-memory path "
         "(mask_data + iter_chromosomes, get_intervals(table).as_stream()). Names with '_' both ignored (default filter) and included "
         "(filter disabled). Non-trivial = data order differs from genome order, or an unknown / ignored / absent contig")
@@ -167,6 +168,8 @@ def _ign_names(c):
     dv = c.get("derive")
     if dv and dv.get("use") == "derived":
         ig += [n for n in dv["added"] if n not in ig]      # with_ignored_added: the added names are ignored too
+    if dv and dv.get("use") == "second":
+        ig += [n for n in dv["added2"] if n not in ig]     # a SECOND derivation ignores its own list only
     return ig
 
 
@@ -351,7 +354,22 @@ def _derive(c, base, sizes):
             list(ctx.iter_chromosomes(NpDataclassStream(iter([Interval(names, [0] * len(names), [1] * len(names))]), Interval), Interval))
         except Exception:
             pass
-    return derived if dv.get("use") == "derived" else base
+    result = derived if dv.get("use") == "derived" else base
+    if dv.get("use") == "second":
+        # a second, different derivation from the same parent, made after the first one
+        result = base.with_ignored_added(list(dv["added2"]))
+    elif dv.get("use") == "fresh":
+        # a fresh object built from the caller's very same dict, after a derivation was made from its sibling
+        flt = ignore_underscores if c.get("filt", True) else None
+        result = (bnp.Genome.from_dict(sizes, filter_function=flt) if hasattr(base, "get_genome_context")
+                  else GenomeContext.from_dict(sizes, flt))
+    if list(sizes.keys()) != list(c["names"]) or list(sizes.values()) != [CONTIG_SIZE + i for i in range(len(c["names"]))]:
+        raise _CallerDictMutated()
+    return result
+
+
+class _CallerDictMutated(Exception):
+    pass
 
 
 def _ctx(c):
@@ -515,6 +533,8 @@ def _call(c):
 def impl(c):
     try:
         return _call(c)
+    except _CallerDictMutated:
+        return {"caller_dict_mutated": True}          # the dict the caller passed in was changed by a derivation
     except Exception as e:
         import traceback
         last = traceback.extract_tb(e.__traceback__)[-1].filename
@@ -879,7 +899,11 @@ def _cases_main(tier, rng):
                {"added": [UNK], "use": "original", "warm": True, "extras": True},
                {"added": [UNK], "use": "derived", "warm": False, "extras": False},
                {"added": [UNK, "chr2"], "use": "original", "warm": True, "extras": False},
-               {"added": [UNK, "chr2"], "use": "derived", "warm": False, "extras": True}]
+               {"added": [UNK, "chr2"], "use": "derived", "warm": False, "extras": True},
+               {"added": [UNK], "added2": ["chrM"], "use": "second", "warm": False, "extras": False},
+               {"added": [UNK], "added2": ["chrM", "chr3"], "use": "second", "warm": True, "extras": True},
+               {"added": [UNK], "use": "fresh", "warm": False, "extras": False},
+               {"added": [UNK, "chr2"], "use": "fresh", "warm": True, "extras": False}]
     for seq in _group_sequences(pool, 3 if not big else 4):
         if not big and UNK not in seq and rng.random() < 0.5:
             continue
